@@ -62,6 +62,9 @@ def all_fields():
         if lp and tr:
             continue
         out.append(NumField(lp, nd, comma, dec, tr))
+    # no integer position at all: a leading sign directly before the point
+    for dec in (1, 2, 3):
+        out.append(NumField(True, 0, False, dec, ''))
     return out
 
 
@@ -131,6 +134,11 @@ def values_for(field, rng, extra=4):
           -2.5 * unit, 9.995, 99.95, 0.995, 9.5, 99.5, top - 1.0,
           top - 0.5 * unit, float(top), -float(top), top * 10.0 + 0.25,
           1234567.891, -1234.5, 0.05, 0.049999, 12.345, 1e-7, 7.0]
+    # values just below a power of ten that round up to it, both signs
+    for k in range(0, field.int_digits + 1):
+        vs.append(10.0 ** k - 0.4 * unit)
+        vs.append(10.0 ** k - 0.6 * unit)
+    vs += [-x for x in vs if x > 0]
     for _ in range(extra):
         vs.append(round(rng.uniform(-top * 1.2, top * 1.2), rng.randint(0, 4)))
     return vs
